@@ -96,6 +96,12 @@ impl Arena {
         self.delegate_target().offset()
     }
 
+    /// Verification accessors: (base address, capacity, committed bytes).
+    #[cfg(feature = "verif")]
+    pub fn verif_layout(&self) -> (usize, usize, usize) {
+        self.delegate_target_unchecked().verif_layout()
+    }
+
     #[allow(clippy::missing_safety_doc)]
     pub unsafe fn reset(&self, to: usize) {
         unsafe { self.delegate_target().reset(to) }
